@@ -109,17 +109,33 @@ def run(program, rep, tier):
         ok_m = bool(exits)
         for ex in exits:
             tr = ex.state.trace
+            from rules.c12 import closure_plain
+            _plain = closure_plain(g, init[0])
             items = [e for e in tr if e.kind == 'for-item'
-                     and e.sym.text == 'self.maps.items()']
+                     and _plain(e.sym.text) == 'self.maps.items()']
+            merged = [e for e in tr if e.kind == 'for-item' and _plain(
+                e.sym.text) in (
+                    'chain(self.handles.items(), self.maps.items())',
+                    'itertools.chain(self.handles.items(), '
+                    'self.maps.items())')]
             sets = [e.sym.node for e in tr if e.kind == 'call' and isinstance(
                 e.sym.node, ast.Call) and norm(e.sym.node.func) in (
                     'object.__setattr__', 'setattr')]
+            cds = {e.sym.text: e.extra for e in tr if e.kind == 'cond'}
             good = False
             for it in items:
                 t = it.target.text
                 if any([norm(a) for a in cc.args] == [
                         sub, f'{t}[0]', f'{t}[1].get_static_map()']
                         for cc in sets):
+                    good = True
+            for it in merged:
+                t = it.target.text
+                im = cds.get(f'isinstance({t}[1], ResourceMap)')
+                want = [sub, f'{t}[0]', f'{t}[1].get_static_map()'] \
+                    if im is True else [sub, f'{t}[0]', f'{t}[1]']
+                if im is not None and any(
+                        [norm(a) for a in cc.args] == want for cc in sets):
                     good = True
             if not good:
                 ok_m = False
